@@ -106,11 +106,11 @@ PROPS = {
     'C30': {
         'title': 'File-format codecs round-trip and reject malformed input',
         'level': 'model_checking',
-        'level_text': 'Header and commit-footer codecs: complete proofs (Kani/CBMC, loop-free harnesses over ALL header values, ALL 4096-byte images, ALL footer values, ALL 56-byte images, compiled inside the real crate): decode(encode(v)) == v, encode rejects exactly the invalid headers, an accepted image is the canonical encoding of the value returned (so a wrong magic/version/spec/wal_offset/wal_size is rejected and no different value is returned). Time index, read side: read_track is PROVED in Verus without bound (timeindex unit; generic reader instantiated with the File model, five declared expression rewrites): Ok(v) only if the magic matches, length >= 12 and length - 12 == 16 * count, and then v holds exactly the count entries the bytes encode, in order, sorted by (timestamp, frame_id) - no truncation, nothing invented; file bytes unchanged; terminates. Time index, write side and round trip: BOUNDED (n <= 3 entries, every i64/u64 value): append_track sorts by (timestamp, frame_id), permutes, length = 12+16n, read_track returns exactly those; an arbitrary image of 12+16n bytes with an arbitrary declared length is accepted only with the right magic, length and order, and never panics. read_toc (Verus, unbounded, over the File model): a TOC is returned only if the trailing 56 bytes decode as a footer whose toc_len equals the length of the bytes between header.footer_offset and the footer, whose hash matches those bytes, and which pass verify_toc_prefix - i.e. inconsistent length / checksum fields are rejected on the header-directed read path. TOC: only the decision logic of Toc::verify_checksum is verified (modular, encoders and hash replaced by ghost functions): the stored checksum is accepted iff it is the digest of a zero-checksum encoding in a format that covers every optional field present (current; V2 only without replay_manifest; V1 only without memories_track and replay_manifest). Toc::encode / decode themselves (serde/bincode) are NOT covered.',
-        'level_note': 'Level is model_checking because the write side of the time index (append_track: sort_by_key closure) is bounded by the entry count (n <= 3; n <= 2 in the quick tier) and the TOC codec is covered only in the decision logic of verify_checksum (serde-derived bincode visitors over String/BTreeMap are outside both tools). The header/footer parts are complete (no bound). blake3::Hasher is stubbed in the time-index harnesses (the checksum value plays no role in these obligations).',
-        'technique': 'Kani loop-free full-domain codec harnesses (complete) inside the real crate; Verus contracts on the extracted read_toc and read_track (unbounded); bounded Kani harnesses for the time-index write side; Kani modular harness for the TOC checksum decision',
+        'level_text': 'Header and commit-footer codecs: complete proofs (Kani/CBMC, loop-free harnesses over ALL header values, ALL 4096-byte images, ALL footer values, ALL 56-byte images, compiled inside the real crate): decode(encode(v)) == v, encode rejects exactly the invalid headers, an accepted image is the canonical encoding of the value returned (so a wrong magic/version/spec/wal_offset/wal_size is rejected and no different value is returned). Time index, read side: read_track is PROVED in Verus without bound (timeindex unit; generic reader instantiated with the File model, five declared expression rewrites): Ok(v) only if the magic matches, length >= 12 and length - 12 == 16 * count, and then v holds exactly the count entries the bytes encode, in order, sorted by (timestamp, frame_id) - no truncation, nothing invented; file bytes unchanged; terminates. Time index, write side: append_track is PROVED in Verus without bound (timeindexw unit; generic writer instantiated with the File model; the sort_by_key call is replaced by a stand-in with the assumed specification "permutation ordered by (timestamp, frame_id)", A-SORT, and four to_le_bytes / for-header rewrites are declared): the image written at the returned (offset, length) is the magic, the entry count and every entry of the sorted slice in order, length = 12+16n, nothing below the offset is disturbed, the returned checksum is the hash of exactly those bytes; lemma_read_after_append combines this with the postcondition of read_track: whatever read_track accepts there is the sorted list itself (round trip for every n). The real sort call and the end-to-end round trip on real bytes are additionally executed BOUNDED (n <= 3 entries, every i64/u64 value): append_track sorts by (timestamp, frame_id), permutes, length = 12+16n, read_track returns exactly those; an arbitrary image of 12+16n bytes with an arbitrary declared length is accepted only with the right magic, length and order, and never panics. read_toc (Verus, unbounded, over the File model): a TOC is returned only if the trailing 56 bytes decode as a footer whose toc_len equals the length of the bytes between header.footer_offset and the footer, whose hash matches those bytes, and which pass verify_toc_prefix - i.e. inconsistent length / checksum fields are rejected on the header-directed read path. TOC: only the decision logic of Toc::verify_checksum is verified (modular, encoders and hash replaced by ghost functions): the stored checksum is accepted iff it is the digest of a zero-checksum encoding in a format that covers every optional field present (current; V2 only without replay_manifest; V1 only without memories_track and replay_manifest). Toc::encode / decode themselves (serde/bincode) are NOT covered.',
+        'level_note': 'Level is model_checking because the TOC codec is covered only in the decision logic of verify_checksum (serde-derived bincode visitors over String/BTreeMap are outside both tools). The header/footer parts are complete (no bound). blake3::Hasher is stubbed in the time-index harnesses (the checksum value plays no role in these obligations).',
+        'technique': 'Kani loop-free full-domain codec harnesses (complete) inside the real crate; Verus contracts on the extracted read_toc and read_track (unbounded); Verus contract on the extracted append_track (unbounded, sort call by assumed specification) + round-trip lemma over the two contracts; bounded Kani harnesses executing the real sort and round trip; Kani modular harness for the TOC checksum decision',
         'design_ref': 'DESIGN.md section 3 (C30)',
-        'verus': ['readtoc', 'timeindex'],
+        'verus': ['readtoc', 'timeindex', 'timeindexw'],
         'kani': [
             H(HDR, 'header_encode_decode_roundtrip'), H(HDR, 'header_decode_implies_encode'), H(HDR, 'header_clear_legacy_lock'),
             H(FTR, 'footer_roundtrip'), H(FTR, 'footer_decode_implies_encode'), H(FTR, 'footer_decode_rejects_wrong_length'),
@@ -126,19 +126,20 @@ PROPS = {
                         'A-ARCH: 64-bit target (usize is 8 bytes) in the readtoc unit',
                         'A-TOC: Toc::decode is a function of the bytes (external_body in the readtoc unit; serde/bincode is not verified)',
                         'A-TOCENC: in toc_verify_checksum_decision the three bincode encoders and blake3 are replaced by ghost functions that keep the format tag, a digest of the optional fields the format covers, and whether the checksum field was zeroed (the encoders themselves are not verified)',
-                        'std::io::Cursor<Vec<u8>> stands for the file in the time-index harnesses (real std code, not a stub)'],
+                        'std::io::Cursor<Vec<u8>> stands for the file in the time-index harnesses (real std code, not a stub)',
+                        'A-SORT: in the timeindexw unit `entries.sort_by_key(|entry| (entry.timestamp, entry.frame_id))` is replaced (declared rewrite, exact text) by a stand-in whose assumed specification is: same length, same multiset, ordered by (timestamp, frame_id); a change of the key or of the call loses the anchor (undecided) and is decided by the bounded Kani harnesses time_track_roundtrip_n*, which run the real call'],
         'not_covered': ['TOC: Toc::encode / decode (serde-derived bincode with legacy fall-backs, trailing-bytes rejection) - no contract within reach of Verus or CBMC; only the checksum decision logic is covered',
-                        'append_track / round trip with more than 3 entries (bounded; read_track itself is unbounded)', 'checksum values (blake3 stubbed)'],
+                        'the std sort inside append_track for more than 3 entries (A-SORT: assumed to leave a permutation ordered by the key; the real call is executed only in the bounded Kani harnesses)', 'that read_track ACCEPTS what append_track wrote (acceptance is not expressible: the File model may fail any read; bounded Kani round trip n <= 3 only)', 'calculate_checksum (not on the codec path)'],
         'search': {},
     },
     'C39': {
         'title': 'Sketch term filter has no false negatives; sketch track round-trips',
         'level': 'model_checking',
-        'level_text': 'Term filter: for hash lists of exactly n <= 6 hashes (n <= 3 quick), EVERY 64-bit hash value, every supported filter size (16/32/64 bytes) and every index i, term_filter_maybe_contains(build_term_filter(hs, size), hs[i]) holds (Kani/CBMC on the real functions; BOUNDED by n); term_filter_maybe_contains is monotone in the filter for all 16-byte filters and all hashes (complete); empty/full filter extremes (complete). Entry and header codecs (SketchEntrySmall/Medium, SketchTrackHeader): complete loop-free round-trip proofs over all values / all images.',
-        'level_note': 'Bounded in the number of token hashes. The tokenizer -> compute_token_weights -> hash_token chain (NFKC, HashMap, blake3) that feeds build_term_filter is ASSUMED to hand every produced token hash to build_term_filter (A-TOKCHAIN, unchecked). The whole-track clause (write_sketch_track/read_sketch_track through HashMap<FrameId,_>) is covered only through the entry/header codecs; see not_covered and known_findings.txt.',
-        'technique': 'Kani bounded harnesses (filter) + loop-free full-domain codec harnesses (complete) inside the real crate; Verus totality contract on the extracted read_sketch_track',
+        'level_text': 'Term filter, PROVED without bound (Verus, termfilter unit, both functions extracted from src/types/sketch_track.rs on every run): build_term_filter(hs, size) returns a filter of size bytes in which contains(filter, h) holds for EVERY h of the list, for every list length, every 64-bit hash and every size in 1..2^28; term_filter_maybe_contains(filter, h) returns exactly contains(filter, h); lemma_no_false_negative joins the two contracts into the first clause of C39. (Loop invariant over the slice iterator; setting a bit keeps every other bit - two bit-vector lemmas; declared rewrites: the three usize::try_from(..).unwrap_or(0) conversions become `as usize`, A-ARCH, and `for &hash in token_hashes` gets a named iterator.) The same clause is also executed bit-precisely by Kani on the real functions: for hash lists of exactly n <= 6 hashes (n <= 3 quick), EVERY 64-bit hash value, every supported filter size (16/32/64 bytes) and every index i, term_filter_maybe_contains(build_term_filter(hs, size), hs[i]) holds (Kani/CBMC on the real functions; BOUNDED by n); term_filter_maybe_contains is monotone in the filter for all 16-byte filters and all hashes (complete); empty/full filter extremes (complete). Entry and header codecs (SketchEntrySmall/Medium, SketchTrackHeader): complete loop-free round-trip proofs over all values / all images.',
+        'level_note': 'The filter clause is proved without bound in Verus; the Kani instances of it are bounded in the number of token hashes and kept as a bit-precise cross-check of the declared rewrites. Level stays model_checking because the whole-track clause is decided only through the entry/header codecs. The tokenizer -> compute_token_weights -> hash_token chain (NFKC, HashMap, blake3) that feeds build_term_filter is ASSUMED to hand every produced token hash to build_term_filter (A-TOKCHAIN, unchecked). The whole-track clause (write_sketch_track/read_sketch_track through HashMap<FrameId,_>) is covered only through the entry/header codecs; see not_covered and known_findings.txt.',
+        'technique': 'Verus contracts + loop invariant on the extracted build_term_filter / term_filter_maybe_contains (unbounded) with a no-false-negative lemma over the two contracts; Kani bounded harnesses (filter, bit-precise cross-check) + loop-free full-domain codec harnesses (complete) inside the real crate; Verus totality contract on the extracted read_sketch_track',
         'design_ref': 'DESIGN.md section 3 (C39)',
-        'verus': ['sketchread'],
+        'verus': ['sketchread', 'termfilter'],
         'kani': [
             H(SKT, 'filter_no_false_negative_n1', 'quick', 'bounded', '1 hash'), H(SKT, 'filter_no_false_negative_n2', 'quick', 'bounded', '2 hashes'),
             H(SKT, 'filter_no_false_negative_n3', 'quick', 'bounded', '3 hashes'), H(SKT, 'filter_no_false_negative_n4', 'thorough', 'bounded', '4 hashes'),
@@ -150,9 +151,9 @@ PROPS = {
             H(SKT, 'sketch_header_roundtrip'), H(SKT, 'sketch_header_rejects_bad_magic'),
             H(SKT, 'sketch_entry_small_bytes_roundtrip'), H(SKT, 'sketch_entry_medium_bytes_roundtrip'),
         ],
-        'assumptions': [A_TOOLS, A_TRACE, 'A-TOKCHAIN: every token produced by the sketch tokenizer reaches build_term_filter as hash_token(token) (unchecked: string tables, HashMap, blake3)',
+        'assumptions': [A_TOOLS, A_TRACE, 'A-ARCH: 64-bit target (usize::try_from(u64) cannot fail, so `.unwrap_or(0)` is dead) in the termfilter unit', 'A-TOKCHAIN: every token produced by the sketch tokenizer reaches build_term_filter as hash_token(token) (unchecked: string tables, HashMap, blake3)',
                         'filter_size_bytes is one of 16/32/64 (SketchVariant::term_filter_size); size 0 would divide by zero and is outside the property'],
-        'not_covered': ['tokenize_for_sketch / compute_token_weights / hash_token chain (A-TOKCHAIN)', 'filter built from more than 6 hashes (bounded)'],
+        'not_covered': ['tokenize_for_sketch / compute_token_weights / hash_token chain (A-TOKCHAIN)', 'filter sizes of 0 bytes (division by zero; precondition - callers pass 16/32/64) and above 2^28 bytes'],
         'search': {},
     },
     'C13': {
@@ -239,11 +240,11 @@ PROPS = {
     'C22': {
         'title': 'No panic or hang on arbitrary file bytes',
         'level': 'model_checking',
-        'level_text': 'DECODER LAYER ONLY.  Proved without bound (Verus on functions extracted verbatim; overflow, index bounds and termination are proof obligations): find_last_valid_footer on every byte string; locate_footer_window (src/memvid/lifecycle.rs, the window-doubling scan used by open / open_read_only / verify) on every byte string, checked against find_last_valid_footer\'s contract; read_toc (src/memvid/lifecycle.rs, the header-directed TOC read of open / doctor) on every file image and every header over the File model: no underflow in `len - footer_offset` / `buf.len() - FOOTER_SIZE`, no out-of-range slice, and a returned TOC is the decoding of exactly the bytes between footer_offset and the trailing footer whose length, hash and prefix guard were checked.  Proved complete by loop-free Kani harnesses over the full input domain: HeaderCodec::decode on all 4096-byte images, CommitFooter::decode on all 56-byte images and on every wrong length, SketchTrackHeader::from_bytes / SketchEntrySmall::from_bytes on all images.  EmbeddedWal::scan_records on every region image over the File model (Verus walscan unit: no overflow, no out-of-range index, terminates); read_track on every file image, offset and declared length (Verus timeindex unit: no arithmetic overflow, terminates; the allocation-size panic class is covered by the Kani harnesses below); read_sketch_track on every file image, offset and declared length (Verus sketchread unit: no arithmetic overflow in the length validation - this obligation found the `entry_count * entry_size` overflow repaired in fix 172834d - the entry loop terminates, the file is not modified). BOUNDED (Kani): read_track on every image of 12 / 28 bytes with every declared length (entry count and length fields fully symbolic); verify_toc_prefix (the guard in front of the TOC decoder) on every image of 0 / 8 / 23 / 24 / 120 bytes: never panics and accepts exactly the images whose version and counts are within the limits and whose minimum payload fits; Kani checks every panic, arithmetic overflow, slice index, unwrap and allocation-size failure on the explored paths.',
+        'level_text': 'DECODER LAYER ONLY.  Proved without bound (Verus on functions extracted verbatim; overflow, index bounds and termination are proof obligations): find_last_valid_footer on every byte string; locate_footer_window (src/memvid/lifecycle.rs, the window-doubling scan used by open / open_read_only / verify) on every byte string, checked against find_last_valid_footer\'s contract; read_toc (src/memvid/lifecycle.rs, the header-directed TOC read of open / doctor) on every file image and every header over the File model: no underflow in `len - footer_offset` / `buf.len() - FOOTER_SIZE`, no out-of-range slice, and a returned TOC is the decoding of exactly the bytes between footer_offset and the trailing footer whose length, hash and prefix guard were checked.  verify_toc_prefix (src/memvid/lifecycle.rs, the guard in front of the bincode TOC decoder) on every image of every length (Verus tocprefix unit: total, saturating products, and it accepts EXACTLY the images whose version / segment / frame counters are within the limits and whose minimum payload fits; the function-local closure read_u64 is replaced by a stand-in with an assumed little-endian specification - declared rewrite - and is itself executed by the bounded Kani harnesses toc_prefix_len*).  Proved complete by loop-free Kani harnesses over the full input domain: HeaderCodec::decode on all 4096-byte images, CommitFooter::decode on all 56-byte images and on every wrong length, SketchTrackHeader::from_bytes / SketchEntrySmall::from_bytes on all images.  EmbeddedWal::scan_records on every region image over the File model (Verus walscan unit: no overflow, no out-of-range index, terminates); read_track on every file image, offset and declared length (Verus timeindex unit: no arithmetic overflow, terminates; the allocation-size panic class is covered by the Kani harnesses below); read_sketch_track on every file image, offset and declared length (Verus sketchread unit: no arithmetic overflow in the length validation - this obligation found the `entry_count * entry_size` overflow repaired in fix 172834d - the entry loop terminates, the file is not modified). BOUNDED (Kani): read_track on every image of 12 / 28 bytes with every declared length (entry count and length fields fully symbolic); verify_toc_prefix (the guard in front of the TOC decoder) on every image of 0 / 8 / 23 / 24 / 120 bytes: never panics and accepts exactly the images whose version and counts are within the limits and whose minimum payload fits; Kani checks every panic, arithmetic overflow, slice index, unwrap and allocation-size failure on the explored paths.',
         'level_note': 'This claim detects regressions in the byte decoders and in the footer window scan; it does NOT cover the layers above them: TOC decode under catch_unwind, index loading, tantivy, recover_toc / doctor / verify logic (1 600 + 1 700 lines of Memvid code) are outside both tools (DESIGN.md section 4, reason W).  read_sketch_track is covered for totality by the sketchread Verus unit (the HashMap-backed track and the entry decoders enter as opaque external functions); its round-trip behaviour is not (see C39).',
-        'technique': 'Verus totality contracts (bounds, overflow, decreases) on six extracted functions + Kani full-domain / bounded decoder harnesses',
+        'technique': 'Verus totality contracts (bounds, overflow, decreases) on seven extracted functions + Kani full-domain / bounded decoder harnesses',
         'design_ref': 'DESIGN.md section 3 (C22)',
-        'verus': ['footer', 'lifecycle', 'readtoc', 'walscan', 'timeindex', 'sketchread'],
+        'verus': ['footer', 'lifecycle', 'readtoc', 'tocprefix', 'walscan', 'timeindex', 'sketchread'],
         'kani': [
             H(HDR, 'header_decode_implies_encode'), H(FTR, 'footer_decode_implies_encode'), H(FTR, 'footer_decode_rejects_wrong_length'),
             H(SKT, 'sketch_header_rejects_bad_magic'), H(SKT, 'sketch_small_bytes_roundtrip'),
@@ -252,10 +253,22 @@ PROPS = {
             H('memvid::lifecycle', 'toc_prefix_len0', 'quick', 'bounded', 'empty image'), H('memvid::lifecycle', 'toc_prefix_len8', 'quick', 'bounded', 'all 8-byte images'),
             H('memvid::lifecycle', 'toc_prefix_len23', 'quick', 'bounded', 'all 23-byte images'), H('memvid::lifecycle', 'toc_prefix_len24', 'quick', 'bounded', 'all 24-byte images'),
             H('memvid::lifecycle', 'toc_prefix_len120', 'quick', 'bounded', 'all 120-byte images'),
+            # the callers of the WAL scan, reached from open / open_read_only on hostile headers and regions: the same
+            # harnesses as in C05 - Kani checks every overflow, index, unwrap and allocation-size failure on the
+            # paths explored (sequences, checkpoint and the records_after argument are symbolic)
+            H(WAL, 'wal_records_after_n0_head0', 'quick', 'bounded', '0 scanned records', playback=False),
+            H(WAL, 'wal_records_after_n1_head49', 'quick', 'bounded', '1 scanned record', playback=False),
+            H(WAL, 'wal_records_after_n2_tail', 'quick', 'bounded', '2 scanned records, head in the short tail', playback=False),
+            H(WAL, 'wal_open_rejects_zero_size', 'quick', 'complete', '', playback=False),
+            H(WAL, 'wal_open_ro_n1_head49', 'quick', 'bounded', '1 scanned record, read-only', playback=False),
+            H(WAL, 'wal_open_rw_n2_head', 'quick', 'bounded', '2 scanned records, writable', playback=False),
         ],
+        # A-INPLACE (as in C05): allocator-model artefacts of std's in-place collect inside records_after
+        'ignore_checks': {('io::wal::verif_kani::' + h): [r'__rust_dealloc', r'unchecked_mul', r'in_place_collect']
+                          for h in ('wal_records_after_n0_head0', 'wal_records_after_n1_head49', 'wal_records_after_n2_tail')},
         'assumptions': [A_MEMRCHR, A_HASH, A_LE, A_TRACE, A_ARITH, A_TOOLS, A_KANI_STUBS,
                         'locate_footer_window is checked against the CONTRACT of find_last_valid_footer (proved in the footer unit), not its body',
-                        A_FILE, 'A-ARCH: 64-bit target (usize is 8 bytes) in the readtoc unit', 'A-TOC: Toc::decode is a function of the bytes (external_body; serde/bincode is not verified)'],
+                        A_FILE, 'A-ARCH: 64-bit target (usize is 8 bytes) in the readtoc unit', 'A-SCANSTUB: records_after / open are run against the contract of scan_records (a stub returning any result the contract allows for 0, 1 or 2 records); A-INPLACE: allocator-model artefacts of std in-place collect are excluded for the records_after harnesses', 'A-CLOSURE(read_u64): in the tocprefix unit the function-local closure of verify_toc_prefix (bytes.get(range) -> try_into -> u64::from_le_bytes) is replaced by read_u64_at with the assumed specification: Ok exactly when the range lies inside the image and is 8 bytes long, value = little-endian decode of those bytes (A-LE); the closure itself runs in the bounded Kani harnesses toc_prefix_len*', 'A-TOC: Toc::decode is a function of the bytes (external_body; serde/bincode is not verified)'],
         'not_covered': ['Toc::decode / verify_checksum, recover_toc, scan_range_for_toc, index loading, tantivy, doctor, verify: everything above the byte decoders',
                         'what read_sketch_track returns (HashMap-backed track: only totality is proved)', 'hangs other than in the Verus-proved loops'],
         'search': {'footer|lifecycle': 'footer'},
